@@ -17,6 +17,7 @@ import (
 	"go/parser"
 	"go/token"
 	"os"
+	"os/exec"
 	"path/filepath"
 	"sort"
 	"strconv"
@@ -183,7 +184,7 @@ func exprStr(e ast.Expr) string {
 	return "?"
 }
 
-// value of a package-level `var name = "literal"` or `name = `…`` possibly concatenated with other such vars
+// value of a package-level `var name = "literal"` or `name = `…“ possibly concatenated with other such vars
 func pkgStrings(files []*ast.File) map[string]string {
 	m := map[string]string{}
 	var eval func(e ast.Expr) (string, bool)
@@ -550,6 +551,23 @@ func main() {
 	def("relayChanCap", "String", leanStr(makeChanCap(relayF, "NewRelay")))
 	def("tickerPeriods", "List (String × String)", tickerPeriods(map[string][]*ast.File{"relay": relayF, "exporter": exporterF, "event": eventF}))
 
+	// dependency facts (read from the sources the build actually uses: the module cache and GOROOT)
+	depVersion, depDir := moduleDir(repo, "github.com/prometheus/client_golang")
+	def("clientGolangVersion", "String", leanStr(depVersion))
+	if depDir != "" {
+		promF := parseDir(filepath.Join(depDir, "prometheus"))
+		def("defBuckets", "List String", leanStrList(floatSliceVar(promF, "DefBuckets")))
+		consts := pkgConstExprs(promF)
+		def("defMaxAge", "String", leanStr(consts["DefMaxAge"]))
+		def("defAgeBuckets", "String", leanStr(consts["DefAgeBuckets"]))
+		def("findBucketLinearBelow", "String", leanStr(findBucketThreshold(promF)))
+	}
+	goroot := strings.TrimSpace(runOut("go", "env", "GOROOT"))
+	if goroot != "" {
+		bufioF := parseDir(filepath.Join(goroot, "src", "bufio"))
+		def("bufioDefaultBufSize", "String", leanStr(pkgConstExprs(bufioF)["defaultBufSize"]))
+	}
+
 	// lock / access table
 	w := &walker{methods: map[string]*methodInfo{}}
 	for _, fl := range [][]*ast.File{mapperF, lruF, rrF, eventF, relayF, exporterF, registryF, listenerF} {
@@ -705,4 +723,105 @@ func tickerPeriods(pk map[string][]*ast.File) string {
 	}
 	sort.Strings(o)
 	return "[" + strings.Join(o, ", ") + "]"
+}
+
+func runOut(name string, args ...string) string {
+	out, err := exec.Command(name, args...).Output()
+	if err != nil {
+		return ""
+	}
+	return string(out)
+}
+
+// version and directory (in the module cache) of a required module, from the repository's go.mod
+func moduleDir(repo, mod string) (string, string) {
+	b, err := os.ReadFile(filepath.Join(repo, "go.mod"))
+	if err != nil {
+		return "", ""
+	}
+	for _, l := range strings.Split(string(b), "\n") {
+		f := strings.Fields(l)
+		if len(f) >= 2 && f[0] == mod {
+			cache := strings.TrimSpace(runOut("go", "env", "GOMODCACHE"))
+			dir := filepath.Join(cache, mod+"@"+f[1])
+			if _, err := os.Stat(dir); err != nil {
+				return f[1], ""
+			}
+			return f[1], dir
+		}
+	}
+	return "", ""
+}
+
+func floatSliceVar(files []*ast.File, name string) []string {
+	var out []string
+	for _, f := range files {
+		for _, d := range f.Decls {
+			gd, ok := d.(*ast.GenDecl)
+			if !ok {
+				continue
+			}
+			for _, sp := range gd.Specs {
+				vs, ok := sp.(*ast.ValueSpec)
+				if !ok || len(vs.Names) != 1 || vs.Names[0].Name != name || len(vs.Values) != 1 {
+					continue
+				}
+				if cl, ok := vs.Values[0].(*ast.CompositeLit); ok {
+					for _, el := range cl.Elts {
+						out = append(out, exprStr(el))
+					}
+				}
+			}
+		}
+	}
+	return out
+}
+
+// source text of package-level constant/variable initialisers
+func pkgConstExprs(files []*ast.File) map[string]string {
+	m := map[string]string{}
+	for _, f := range files {
+		for _, d := range f.Decls {
+			gd, ok := d.(*ast.GenDecl)
+			if !ok {
+				continue
+			}
+			for _, sp := range gd.Specs {
+				vs, ok := sp.(*ast.ValueSpec)
+				if !ok {
+					continue
+				}
+				for i, n := range vs.Names {
+					if i < len(vs.Values) {
+						m[n.Name] = exprStr(vs.Values[i])
+					}
+				}
+			}
+		}
+	}
+	return m
+}
+
+// the `if n < K` threshold below which histogram.findBucket searches linearly
+func findBucketThreshold(files []*ast.File) string {
+	res := "?"
+	for _, f := range files {
+		for _, d := range f.Decls {
+			fd, ok := d.(*ast.FuncDecl)
+			if !ok || fd.Name.Name != "findBucket" || fd.Body == nil {
+				continue
+			}
+			ast.Inspect(fd.Body, func(n ast.Node) bool {
+				is, ok := n.(*ast.IfStmt)
+				if !ok {
+					return true
+				}
+				if be, ok := is.Cond.(*ast.BinaryExpr); ok && exprStr(be.X) == "n" && be.Op == token.LSS {
+					res = exprStr(be.Y)
+				}
+				return true
+			})
+		}
+	}
+	return res
 }
